@@ -55,7 +55,7 @@ func init() {
 			for _, p := range pls {
 				c.I.OBytes(p)
 			}
-			observeDepHist(&c.O, mk, pls, nil)
+			observeDepHist(&c.O, mk, func(*Toks, depacketizer) {}, pls)
 		}
 		// all strings ≤ 1 byte (≤ 2 bytes in thorough), preceded by a varying earlier payload
 		x.Case(func(c *Case) { c.Trivial(); emit(c, [][]byte{nil}) })
